@@ -54,6 +54,9 @@ def classify(ty, s):
         return ("grey", None)
     if re.fullmatch(r"[-+]?0[xXbB][0-9a-fA-F]+", s):
         return ("grey", None)
+    # C hexadecimal floating literals (0x1., 0x.8, 0x1p3) are prefix forms as well: grey for float columns
+    if ty == "float" and re.fullmatch(r"[-+]?0[xX]([0-9a-fA-F]+\.?[0-9a-fA-F]*|\.[0-9a-fA-F]+)([pP][-+]?[0-9]+)?", s):
+        return ("grey", None)
     return ("reject",)
 
 
